@@ -81,7 +81,12 @@ def phase_faults(rep, tier, seed):
         for k in ks:
             c = dict(base, fault={"k": k, "err": "ENOSPC" if k % 2 else "EIO"})
             enum_cases.append(c)
-    allc = cases + enum_cases
+    torpex = []
+    if tier == "thorough":
+        for i in range(24):
+            s_ = core.run_seed(seed, "c12-torpex", i)
+            torpex.append(FS.torpex_case(core.stream(s_, "case"), s_))
+    allc = cases + enum_cases + torpex
     res = batch.map_chunks(_fault_job, allc, limit_s=1500)
     table = collections.Counter()
     fired = collections.Counter()
